@@ -439,18 +439,25 @@ class CFG:
             ds = desugar_iterator_loop(s)
             if ds is not None:
                 s = ds
-            incn = head
-            if s.get('n') is not None:
-                incn = self.build(s['n'], head, ctx)
-                for nn in self._chain(incn, head):
-                    nn.meta['loopinc'] = head.id
-            body = self.build(s['b'], incn, Ctx(nxt, incn, ctx.handlers, ctx.ret))
-            head.succ = [self.branch(s.get('c'), body, nxt, ln, ctx)]
-            meta['cond'] = s.get('c')
-            meta['iv'] = canonical_iv(s)
-            meta['body'] = s['b']
-            entry = self.build(s['i'], head, ctx) if s.get('i') else head
-            return entry
+            return self.loop_for(s, head, meta, nxt, ctx, ln)
+        if k == 'forrange' and pure_lvalue(s.get('r')) and isinstance(s.get('v'), dict) and 'id' in s['v']:
+            # for (T x : X) body   is read as   for (size_t i = 0; i < X.size(); i++) { T x = X[i]; body }
+            v = s['v']
+            rt = strip_casts(s['r']).get('t', '') or ''
+            cls = rt.replace('const ', '').replace(' &', '').strip()
+            ivar = {'k': 'var', 'n': '__range_index', 'id': -abs(v['id']) - 1, 't': 'unsigned long'}
+            elem = {'k': 'opcall', 'op': '[]', 'f': cls + '::operator[]', 'a': [copy.deepcopy(s['r']), dict(ivar)], 't': v.get('t', '').replace('&', '').strip(), 'l': ln}
+            decl = {'k': 'decl', 'l': ln, 'v': [dict(v, init=elem)]}
+            body = {'k': 'block', 's': [decl, s['b']]}
+            size = {'k': 'mcall', 'f': cls + '::size', 'o': copy.deepcopy(s['r']), 'a': [], 'fid': cls + '::size()const', 't': 'unsigned long', 'l': ln}
+            s = {'k': 'for', 'l': ln,
+                 'i': {'k': 'decl', 'l': ln, 'v': [{'n': ivar['n'], 'id': ivar['id'], 't': 'unsigned long', 'init': {'k': 'int', 'v': 0, 't': 'int'}}]},
+                 'c': {'k': 'bin', 'op': '<', 'a': [dict(ivar), size], 't': 'bool', 'l': ln},
+                 'n': {'k': 'un', 'op': 'post++', 'a': [dict(ivar)], 't': 'unsigned long', 'l': ln},
+                 'b': body}
+            meta['kind'] = 'for'
+            head.meta['loop'] = 'for'
+            return self.loop_for(s, head, meta, nxt, ctx, ln)
         if k == 'forrange':
             bindn = self.new('stmt', {'k': 'rangebind', 'v': s['v'], 'r': s['r']}, ln)
             body = self.build(s['b'], head, Ctx(nxt, head, ctx.handlers, ctx.ret))
@@ -459,6 +466,20 @@ class CFG:
             br.succ = [bindn, nxt]
             head.succ = [br]
             return head
+
+    def loop_for(self, s, head, meta, nxt, ctx, ln):
+        incn = head
+        if s.get('n') is not None:
+            incn = self.build(s['n'], head, ctx)
+            for nn in self._chain(incn, head):
+                nn.meta['loopinc'] = head.id
+        body = self.build(s['b'], incn, Ctx(nxt, incn, ctx.handlers, ctx.ret))
+        head.succ = [self.branch(s.get('c'), body, nxt, ln, ctx)]
+        meta['cond'] = s.get('c')
+        meta['iv'] = canonical_iv(s)
+        meta['body'] = s['b']
+        entry = self.build(s['i'], head, ctx) if s.get('i') else head
+        return entry
 
     def _chain(self, a, stop):
         out = []
